@@ -96,6 +96,12 @@ func (rww *responseWriterWrapper) WriteHeader(status int) {
 	if rww.wroteHeader {
 		return
 	}
+	if status >= 100 && status < 200 && status != http.StatusSwitchingProtocols {
+		// an interim response (103 Early Hints, ...): the final one,
+		// which the revisions are for, is still to come
+		rww.ResponseWriterWrapper.WriteHeader(status)
+		return
+	}
 	rww.wroteHeader = true
 	// capture the original headers
 	h := rww.Header()
